@@ -155,7 +155,7 @@ func (v *Vue) evalSlot(ctx VueContext, node *html.Node, slotScope *SlotScope) ([
 
 	// Check for inherited slots from layout (passed via __slotScope__ in context data)
 	if inheritedSlotScopeData, ok := ctx.stack.EnvMap()["__slotScope__"]; ok {
-		if inheritedSlotScope, ok := inheritedSlotScopeData.(*SlotScope); ok {
+		if inheritedSlotScope, ok := inheritedSlotScopeData.(*SlotScope); ok && inheritedSlotScope != nil {
 			if slotContent := inheritedSlotScope.GetSlot(slotName); slotContent != nil {
 				// Evaluate a private copy of the inherited slot content. It was written in
 				// the page, where no slots are inherited: hide them while it is evaluated,
